@@ -155,6 +155,15 @@ pub fn run_generic(ctx: &mut Ctx, id: &'static str, methods: &'static [SolveMeth
                             continue;
                         };
                         let _ = diff0;
+                        // stability probe: would a 1e-13 perturbation of the payoffs move the
+                        // 1-thread result as much? then summation order alone explains it
+                        let judged = solve::max_difference(&out, &base, prep.flat.max_abs_payoff());
+                        let probe = solve::stability_probe(&tree, &base_cfg, &*mk_sampling, &base, idx);
+                        if probe >= judged / 1000.0 {
+                            ctx.count("unstable-dynamics(1e-13-payoff-perturbation-moves-the-output-comparably)", 1);
+                            ctx.inconclusive("outputs-differ-but-the-solve-is-unstable-under-1e-13-relative-payoff-perturbations");
+                            continue;
+                        }
                         if margin < 1e-9 {
                             ctx.inconclusive("outputs-differ-but-a-trace-passed-within-1e-9-of-a-regret-matching-discontinuity");
                             continue;
@@ -187,7 +196,7 @@ pub fn run_generic(ctx: &mut Ctx, id: &'static str, methods: &'static [SolveMeth
         ("solve(Sampled|External, ...) under fixed sampling decisions (seeded, forced round-robin, forced rarest outcome)", "seeded/forced sampling makes the draw at (site, infoset, pass) a pure function, so 1- and k-thread runs see the same sampled tree")
     };
     ctx.finish(crate::report::extra(
-        &format!("cases = k-thread runs of {} on G1/G2 games (<=700 nodes): random parameter sets (presets, None, custom tuples), budgets {{1,2,3,4,7,20,100}} (small budgets weighted up), thresholds {{0, random}}, k in {{2,3,4,8,16,64}}, every fourth case a contention workload (wide trees, all moves hidden, shared chance infosets, 4-16 threads, always jittered, incl. jitter while an infoset lock is held), 2-3 repetitions per configuration with fresh jitter seeds (70% of runs with hook-H5 yields/spins/sleeps between critical sections), 16 worker processes at once (oversubscription). Each run is (1) step-checked by O3 including the exactly-once visit monitor and the one-draw-per-infoset-per-pass monitor and (2) compared with the logged 1-thread run of the same configuration within 1e-9; a difference is inconclusive (not a violation) only if a trace passed within 1e-9 relative of a regret-matching discontinuity. Panics inside the parallel solver (e.g. try_lock on a contended infoset) are violations. distinct = hash(tree, configuration, sampling, node-to-thread assignment); non-trivial = game has a decision infoset. Schedules actually observed are measured: distinct (node,thread,pass) assignments and distinct visit orders.", what),
+        &format!("cases = k-thread runs of {} on G1/G2 games (<=700 nodes): random parameter sets (presets, None, custom tuples), budgets {{1,2,3,4,7,20,100}} (small budgets weighted up), thresholds {{0, random}}, k in {{2,3,4,8,16,64}}, every fourth case a contention workload (wide trees, all moves hidden, shared chance infosets, 4-16 threads, always jittered, incl. jitter while an infoset lock is held), 2-3 repetitions per configuration with fresh jitter seeds (70% of runs with hook-H5 yields/spins/sleeps between critical sections), 16 worker processes at once (oversubscription). Each run is (1) step-checked by O3 including the exactly-once visit monitor and the one-draw-per-infoset-per-pass monitor and (2) compared with the logged 1-thread run of the same configuration within 1e-9; a difference is inconclusive (not a violation) only if a trace passed within 1e-9 relative of a regret-matching discontinuity, or if the stability probe (the 1-thread solve repeated with every payoff perturbed by a relative 1e-14..1e-13) moves the output by at least a thousandth of the difference; the step checker decides those runs regardless. Panics inside the parallel solver (e.g. try_lock on a contended infoset) are violations. distinct = hash(tree, configuration, sampling, node-to-thread assignment); non-trivial = game has a decision infoset. Schedules actually observed are measured: distinct (node,thread,pass) assignments and distinct visit orders.", what),
         &["the schedules explored are those the rayon pool produced under jitter and oversubscription; nothing is claimed about schedules not observed", extra_assume],
     ));
 }
